@@ -921,9 +921,40 @@ func alStale(c *Ctx) {
 				}
 			}
 		}
-		elemOfGrown := func(v ssa.Value) (string, bool) {
+		var elemOfGrown func(v ssa.Value) (string, bool)
+		retMemo := map[*ssa.Function]string{}
+		// returnsElem: every pointer fn returns (as its only result) is the address of an element of a grown slice
+		var returnsElem func(fn *ssa.Function, d int) string
+		returnsElem = func(fn *ssa.Function, d int) string {
+			if fn == nil || fn.Blocks == nil || d > 3 || fn.Signature.Results().Len() != 1 {
+				return ""
+			}
+			if k, ok := retMemo[fn]; ok {
+				return k
+			}
+			retMemo[fn] = ""
+			k := ""
+			for _, r := range returnsOf(fn) {
+				rk, ok := elemOfGrown(resolvedResults(r)[0])
+				if !ok {
+					return ""
+				}
+				k = rk
+			}
+			retMemo[fn] = k
+			return k
+		}
+		elemOfGrown = func(v ssa.Value) (string, bool) {
 			for i := 0; i < 8; i++ {
 				switch x := v.(type) {
+				case *ssa.Call:
+					// what a module helper hands back (the arena entry found for a type) is still an element address
+					if g := x.Call.StaticCallee(); g != nil && P.isModuleFunc(g) {
+						if k := returnsElem(g, 0); k != "" {
+							return k, grown[k]
+						}
+					}
+					return "", false
 				case *ssa.FieldAddr:
 					v = x.X
 					continue
